@@ -35,9 +35,16 @@ ASSUMPTIONS = [
 
 @st.composite
 def _case(draw, tier):
-    if prob(draw, 0.25):
-        nodes = draw(gen.permuted(draw(gen.g1_nodes(2, 7))))
+    if prob(draw, 0.3):
+        topo = draw(gen.g1_nodes(2, 7))
         labels = ["dag"]
+        if len(topo) >= 3 and prob(draw, 0.5):
+            # an interval nested to depth 1-2 (inner names permuted, boundary renamed back): nested runs interleave too
+            outer, _hidden, _inactive = draw(gen.nest_spec(topo, draw(st.sampled_from([1, 2])), {}, permute_names=draw(st.booleans())))
+            if not _hidden:
+                topo = outer
+                labels.append("nested")
+        nodes = draw(gen.permuted(topo))
     else:
         nodes, labels = draw(gen.g2_nodes(max_nodes=6))
     return {
@@ -222,7 +229,7 @@ def check_case(case, ev):
     ev.count("schedules_executed", nsched[0])
 
     # ---- node-list permutations (non-failing, unique output names)
-    outs = [o for n in nodes for o in n.get("outs", []) + n.get("emit", [])]
+    outs = [o for n in nodes for o in n.get("outs", n.get("flat_outputs", [])) + n.get("emit", [])]
     if base.status == "completed" and len(outs) == len(set(outs)):
         perms = list(itertools.permutations(range(len(nodes)))) if len(nodes) <= 3 else None
         tried = 0
